@@ -24,7 +24,7 @@ BaseTexts(L) ==
       singles == [j \in 1..Len(W) |-> W[j]]
       pairs == [j \in 1..(Len(W) * Len(W)) |-> W[((j - 1) \div Len(W)) + 1] \o " " \o W[((j - 1) % Len(W)) + 1]]
       rnd == [r \in 1..Params.randn |-> RandText(W, BaseSeps, Start(Seed, 11 + Len(W), r), 3 + (r % (Params.randlen - 2)))]
-  IN (IF Params.pairs THEN singles \o pairs ELSE singles) \o rnd
+  IN (IF Params.pairs THEN singles \o pairs ELSE singles) \o AmbigParts[L] \o rnd
 
 \* ---- case variants ------------------------------------------------------
 CaseVariants(s) == <<s, Upper(s), Alternate(s, TRUE), Alternate(s, FALSE), Capitalise(s)>>
@@ -56,7 +56,9 @@ Neigh(toks, i, right) == LET j == IF right THEN i + 1 ELSE i - 1 IN
 TwinTok(toks, i) == IF toks[i] # "o" THEN toks[i]
                     ELSE IF IsNumWord(Neigh(toks, i, FALSE)) \/ IsNumWord(Neigh(toks, i, TRUE)) THEN "zero" ELSE "xq"
 ForceO(toks, x) == LET nw == (Len(toks) + 1) \div 2  k == 2 * ((x \div 128) % nw) + 1 IN [toks EXCEPT ![k] = "o"]
-O18Case(x, n) == LET toks == ForceO(Alt(x, n, TRUE), x) IN <<Concat(toks), Concat([i \in 1..Len(toks) |-> TwinTok(toks, i)])>>
+\* the lone o, with nothing / blanks / punctuation around it
+O18Fixed == << <<"o">>, <<"o", ".">>, <<"(", "o", ")">>, <<" ", "o", " ">>, <<"o", ", ">>, <<"\n", "o">>, <<"O">>, <<"o", " ", "o">>, <<"o", "!">> >>
+O18Case(x, n) == LET toks == IF n = 0 THEN O18Fixed[(x % Len(O18Fixed)) + 1] ELSE ForceO(Alt(x, n, TRUE), x) IN <<Concat(toks), Concat([i \in 1..Len(toks) |-> TwinTok(toks, i)])>>
 
 \* ---- C10: A S B -----------------------------------------------------------
 Parts(L) == LET W == Words[L] IN
@@ -78,7 +80,7 @@ Req(L, n, texts, extra) == [i |-> n, lang |-> L, texts |-> texts, thrs |-> Param
 ForLang(L, base) ==
   IF Kind = "case" THEN LET B == BaseTexts(L) IN [j \in 1..Len(B) |-> Req(L, base + j, CaseVariants(B[j]), "")]
   ELSE IF Kind = "ws" THEN LET B == BaseTexts(L) IN [j \in 1..Len(B) |-> Req(L, base + j, WsVariants(B[j], Start(Seed, 3, j)), "")]
-  ELSE IF Kind = "o18" THEN [j \in 1..Params.cases |-> Req("en", base + j, O18Case(Start(Seed, 18, j), 3 + (j % 7)), "")]
+  ELSE IF Kind = "o18" THEN [j \in 1..Params.cases |-> Req("en", base + j, IF j <= 9 THEN O18Case(j - 1, 0) ELSE O18Case(Start(Seed, 18, j), 3 + (j % 7)), "")]
   ELSE LET C == AsbCases(L) IN [j \in 1..Len(C) |-> Req(L, base + j, <<C[j][1], C[j][2], C[j][3]>>, C[j][4])]
 
 RECURSIVE All(_, _)
